@@ -23,23 +23,32 @@
 EXTENDS Integers, Sequences, FiniteSets, TLC, Json, IOUtils
 
 Tier == IF "TIER" \in DOMAIN IOEnv THEN IOEnv.TIER ELSE "quick"
-Variants == {"groth_ni", "groth_i", "hoogh_ni", "hoogh_i"}
-IsHoogh(v) == v \in {"hoogh_ni", "hoogh_i"}
-IsInter(v) == v \in {"groth_i", "hoogh_i"}
+\* _ni non-interactive, _i interactive public-coin (card-level entry points), _hv interactive honest-verifier (class level)
+Variants == {"groth_ni", "groth_i", "groth_hv", "hoogh_ni", "hoogh_i", "hoogh_hv"}
+IsHoogh(v) == v \in {"hoogh_ni", "hoogh_i", "hoogh_hv"}
+IsInter(v) == v \in {"groth_i", "hoogh_i", "groth_hv", "hoogh_hv"}
+IsHV(v) == v \in {"groth_hv", "hoogh_hv"}
 Sizes == IF Tier = "quick" THEN {2, 3, 5} ELSE 2..8
 FalseStmts(v) == IF IsHoogh(v) THEN {"subst", "dup", "retype", "noncyclic"} ELSE {"subst", "dup", "retype"}
 Muts == {"plus1", "otherres", "zero", "one", "plusq", "p", "pm1", "oversized", "trunc", "swap"}
-Pubs == {"s_c1", "s_c2", "s2_c1", "s2_c2", "h"}
+\* "h": the verifier's argument instance has another ElGamal key than the cards; "hprover": prover and argument instance
+\* consistently use another key than the verifier's card scheme (only the comparison of the two keys can refuse this)
+Pubs == {"s_c1", "s_c2", "s2_c1", "s2_c2", "h", "hprover"}
+\* admissible challenge lengths other than the default 80 (|q| = 256 >= 2 l_e + 64), prover built from parameters and
+\* verifier from the published stream as in a game between a leader and the other players
+ChallengeLens == {40, 64, 96}
 \* transcript positions: non-interactive proofs by position class (first / middle / last) and by line number; interactive
 \* ones by the number of the line the relaying man in the middle replaces
-Positions(v, n) == IF IsInter(v) THEN {[line |-> k] : k \in (IF Tier = "quick" THEN {0, 1, 2, 5, 9, 14, 20, 27, 35} ELSE 0..70)}
+\* (negative: counted from the end, -1 = the last value the prover transmits)
+Positions(v, n) == IF IsInter(v) THEN {[line |-> k] : k \in (IF Tier = "quick" THEN {0, 1, 2, 5, 9, 14, 20, 27, 35} ELSE 0..70) \cup {0 - 1, 0 - 2, 0 - 3, 0 - 4}}
                    ELSE {[pos |-> k] : k \in (IF Tier = "quick" THEN {0, 1, 2, 4, 8, 13} ELSE 0..60)}
 
-Honest == {[variant |-> v, n |-> n, stmt |-> "true"] : v \in Variants, n \in Sizes}
+Honest == {[variant |-> v, n |-> n, stmt |-> "true"] : v \in Variants, n \in Sizes} \cup
+          {[variant |-> v, n |-> 3, stmt |-> "true", le |-> e] : v \in {"groth_ni", "groth_i", "groth_hv"}, e \in ChallengeLens}
 Unsound == (UNION {{[variant |-> v, n |-> n, stmt |-> s] : n \in Sizes \ {2}, s \in FalseStmts(v)} : v \in Variants}) \cup
            {[variant |-> v, n |-> 2, stmt |-> "subst"] : v \in Variants}
 Mutated == (UNION {{[variant |-> v, n |-> 3, stmt |-> "true", mut |-> m] @@ ps : m \in Muts, ps \in Positions(v, 3)} : v \in Variants}) \cup
-           {[variant |-> v, n |-> 3, stmt |-> "true", pub |-> pb] : v \in Variants, pb \in Pubs}
+           (UNION {{[variant |-> v, n |-> 3, stmt |-> "true", pub |-> pb] : pb \in (IF IsHV(v) THEN Pubs \ {"hprover"} ELSE Pubs)} : v \in Variants})
 Cases == Honest \cup Unsound \cup Mutated
 
 Expected(c) == IF c.stmt = "true" /\ "mut" \notin DOMAIN c /\ "pub" \notin DOMAIN c THEN "accept" ELSE "refuse"
@@ -50,5 +59,5 @@ Next == ~done /\ done' = TRUE /\ \A c \in Cases : PrintT(ToJson(c @@ [expect |->
 Spec == Init /\ [][Next]_done
 \* the table asks for acceptance exactly on the honest runs, and every variant and size has its honest run
 TableOK == /\ {c \in Cases : Expected(c) = "accept"} = Honest
-           /\ \A v \in Variants, n \in Sizes : \E c \in Honest : c.variant = v /\ c.n = n
+           /\ \A v \in Variants, n \in Sizes : \E c \in Honest : c.variant = v /\ c.n = n /\ "le" \notin DOMAIN c
 =============================================================================
